@@ -20,7 +20,7 @@ run_demo() {   # copies the demo test files into the package named by the go tes
     local sh=$(ls "$demo"/*.sh | head -1)
     cmd="bash $sh"
   fi
-  cmd=$(echo "$cmd" | sed -E "s#/tmp/seed_${prop}[bcde]?#$wt#g")
+  cmd=$(echo "$cmd" | sed -E "s#/tmp/seed_${prop}[bcdef]?#$wt#g")
   if (cd $wt && timeout 600 bash -c "$cmd") >/tmp/mw_demo.log 2>&1; then echo PASS; else echo FAIL; fi
 }
 echo "== $prop$sfx demo on clean tree: $(run_demo)"
